@@ -44,12 +44,26 @@ func ruleOrderMatchesIdentity(c *Ctx, rule string) {
 		c.Fail(rule, "anchor", token.NoPos, "identity function (func(FileAnnotation) string) or comparator (func(FileAnnotation, FileAnnotation) int) not found in bufanalysis")
 		return
 	}
+	var accessorsInto func(fr *FuncRef, out map[string]bool, depth int)
 	accessors := func(fr *FuncRef) map[string]bool {
 		out := map[string]bool{}
+		accessorsInto(fr, out, 2)
+		return out
+	}
+	accessorsInto = func(fr *FuncRef, out map[string]bool, depth int) {
 		info := fr.Info()
 		ast.Inspect(fr.Decl.Body, func(n ast.Node) bool {
 			call, ok := n.(*ast.CallExpr)
-			if !ok || len(call.Args) != 0 {
+			if !ok {
+				return true
+			}
+			// a helper of the same package (the FileInfo step moved into its own function): its accessors count
+			if fn := Callee(info, call); fn != nil && fn.Pkg() == pk.Types && depth > 0 && fn != fr.Obj {
+				if hd := p.DeclOf(fn); hd != nil && hd.Decl.Body != nil && hd.Decl.Recv == nil {
+					accessorsInto(hd, out, depth-1)
+				}
+			}
+			if len(call.Args) != 0 {
 				return true
 			}
 			sel, ok := call.Fun.(*ast.SelectorExpr)
@@ -63,7 +77,6 @@ func ruleOrderMatchesIdentity(c *Ctx, rule string) {
 			}
 			return true
 		})
-		return out
 	}
 	ia, ca := accessors(ident), accessors(cmp)
 	var missing []string
